@@ -1,5 +1,6 @@
 import IndicatifModel.Model.DrawTarget
 import IndicatifModel.Proofs.WideRows
+import IndicatifModel.Proofs.GenBridgePadStep
 /-!
 # C19 — height overflow: the managed region never grows beyond the terminal
 -/
@@ -266,5 +267,20 @@ theorem C19_cutoff_raises_flag (fx : Fixes) (hfp : fx.fpark = true) (ds : DrawSt
       (if ds.alignment = .bottom ∧ visualLineCount W ds.lines < n then n - visualLineCount W ds.lines else 0) = 0) := by omega
   simp only [h1, Bool.false_or, Bool.not_eq_true', beq_eq_false_iff_ne, ne_eq]
   exact h2
+
+/-- **`LineType::padded_width` as translated from the source** (`tools/gen_padded.py`, regenerated on every run: the body of the
+loop over the characters of a line, statement by statement; the code around it is compared as text): the columns the model counts for
+a line — the quantity `C19_wrapped_rows_accounted` proves equal to what the terminal does — are the display width plus the padding
+the source's loop accumulates, for every line and width. (Modelled, not read: `console::measure_text_width`, the ANSI iterator and
+`UnicodeWidthChar::width` as the glyph widths the harness measures with the same crates.) -/
+theorem C19_source_padded_width (W : Nat) (l : Line) :
+    l.padded W = l.gs.cols + (l.gs.foldl (fun a g => Generated.padStepSrc W a.1 a.2 g.w) (0, 0)).2 := by
+  unfold Line.padded Text.padded
+  rw [GenBridge.padFoldSrc_eq]
+
+/-- non-vacuity: glyphs of 1, 1, 2 columns on three columns — one column of padding, as the source's loop counts it; 1, 2, 1: none -/
+example : ([1, 1, 2].map (fun w => ({ cp := 120, w := w } : Glyph))).foldl (fun a g => Generated.padStepSrc 3 a.1 a.2 g.w) (0, 0) = (5, 1) ∧
+    ([1, 2, 1].map (fun w => ({ cp := 120, w := w } : Glyph))).foldl (fun a g => Generated.padStepSrc 3 a.1 a.2 g.w) (0, 0) = (4, 0) := by
+  constructor <;> decide
 
 end IndicatifModel
